@@ -5,7 +5,7 @@
     fmt <spec>                                      -> ok <prefix> <char> <suffix> | ok none   numFormatPattern.search
     list <showAll 0|1> <name> <spacing> <base|E> <n> <spec>*n <mul>*n
     str  <showAll 0|1> <name> <specifiers> <delim> <spacing> <base|E> <m> <mul>*m
-        -> ok <style:name> <nlevels> { <tag> <k> (<attr> <value>)*k <kp> (<attr> <value>)*kp }*   | err ValueError | err IndexError
+        -> ok <style:name> <style:display-name> <nlevels> { <tag> <k> (<attr> <value>)*k <kp> (<attr> <value>)*kp }*   | err ValueError | err IndexError
   <base> = str(cssLengthNum) and <mul>_k = str(cssLengthNum * k) are computed by the harness with Python's float
   (the model's FloatOracle); `E` = float() raised ValueError.
 -/
@@ -20,7 +20,7 @@ def showLevel (l : Level) : String :=
   a.1 ++ " " ++ showAttrs a.2 ++ " " ++ showAttrs (propAttrs l)
 
 def showRes : Except Err ListStyle → String
-  | .ok st => "ok " ++ Wire.enc st.name ++ " " ++ toString st.levels.length ++
+  | .ok st => "ok " ++ Wire.enc st.name ++ " " ++ Wire.enc st.displayName ++ " " ++ toString st.levels.length ++
       String.join (st.levels.map fun l => " " ++ showLevel l)
   | .error .valueError => "err ValueError"
   | .error .indexError => "err IndexError"
